@@ -22,8 +22,9 @@ CLAIMS = {
              "that session passed; tun traffic is dispatched only to the index returned by the live/logged-in/address "
              "lookup; a slot is taken over only if unused or expired; the peer address is rebound only at slot hand-out "
              "or after the raw-login digest matched; the slot-in-use flag is cleared only before serving or for a session whose "
-             "authenticated guard passed and set only by the allocator; one expiry constant and two complementary forms everywhere. The "
-             "behaviour exactly at the 60 s instant and multi-session interleavings are not decided.",
+             "authenticated guard passed and set only by the allocator; one expiry constant and two complementary forms everywhere; "
+             "every raw datagram is sent to the address remembered for the session its header names (or answers the query the "
+             "handler was given). The behaviour exactly at the 60 s instant and multi-session interleavings are not decided.",
         technique="must-fact dataflow with history facts and summaries; return-path enumeration of the guard; "
                   "predicate normalisation for the expiry tests",
         design="5 C04"),
@@ -32,11 +33,12 @@ CLAIMS = {
              "packet-reachable code, and the loop/recursion part of the bounded-time clause; read-side bounds are C12's "
              "subject, blocking system calls are not timed, and undefined behaviour other than out-of-bounds writes and "
              "table indexing is not decided. Every store, memcpy/memset/strncpy/snprintf-class call, indexed store, table "
-             "index by character, unsigned subtraction and capacity argument in the units the server links is put in "
+             "index by character, unsigned subtraction (differences, and size_t counters taken down in place) and capacity argument in the units the server links is put in "
              "one obligation class (M1 table index, M2 unsigned difference, M3 bounded copy, M3c stated capacity (codec calls through the "
              "ops tables included), M4 indexed store, M4l indexed load, M5 cursor writers with inductive loop invariants, M6 persistent lengths, M3r producers "
-             "return at most their capacity, M8 every loop has a ranking function and every call-graph cycle a decreasing "
-             "counter or a latch, M9 no exit reachable from a packet entry point) and discharged on every "
+             "return at most their capacity, M8 every loop has a termination argument (a ranking read off its own comparisons, "
+             "a countdown that leaves on equality with its invariant shown on entry, halving, a modular countdown, a libc "
+             "iterator or one blocking receive per cycle) and every call-graph cycle a decreasing counter or a latch, M9 no exit reachable from a packet entry point) and discharged on every "
              "path by must-facts, linear bounds and extents of the destination objects; what a function cannot show "
              "locally becomes a requirement on each of its call sites. A short table of reviewed exceptions is keyed "
              "by function and construct, each with a machine-checked premise (mostly another rule of this framework). "
@@ -125,13 +127,15 @@ CLAIMS = {
         text="Clause-level structural decision of writer/reader agreement for downstream answers: for every downstream codec "
              "option the prefix letter and codec chosen by the server's TXT and hostname writers are the documented ones and the "
              "client's decoder maps that letter, in both cases, to the same codec and format (computed by reachability under a "
-             "fixed discriminant, not by text); the seven record types fall into the same four format classes in write_dns, "
+             "fixed discriminant, with the values that locals carry - a helper's parameter, a flag, a pointer to a codec table - "
+             "propagated along the way, not by text); the seven record types fall into the same four format classes in write_dns, "
              "dns_encode and dns_decode and are routed accordingly by read_dns_withq; MX/SRV preference numbering (step, base, "
              "slot index, a guaranteed empty sentinel slot for the unbounded read loop) and the SRV extra fields agree; hostname "
              "prefix/suffix lengths written and stripped agree (reader tabulated over all 65536 preferences); the codecs used are "
              "lossless and never write beyond the room they are given (C07's rules re-evaluated); TXT strings are length-prefixed with the bytes copied and "
-             "bounded on both sides; the hostname reserve arithmetic keeps every name within 253 characters and the dot interval "
-             "matches inline_dotify; the MX/SRV name table is cleared in full before every use. Found and now guards the repair "
+             "bounded on both sides; the hostname writer's reserve arithmetic, evaluated from its own expressions for every buffer "
+             "size 8..1099 and every codec option, keeps every name within the buffer and within 253 characters with the dot "
+             "interval inline_dotify uses; the MX/SRV name table is cleared in full before every use. Found and now guards the repair "
              "of the Base64u/Base64 decoder mix-up. Not decided: per-length exactness and monotonicity inside one format.",
         technique="table agreement: reachability under fixed discriminants over clang CFGs, evaluated constants, must-fact "
                   "dominance for guards, symbolic path walk of the name suffix writer",
@@ -215,17 +219,19 @@ CLAIMS = {
                   "result site of the lookup; loop-bound agreement",
         design="5 C18"),
     "C19": dict(
-        text="Clause-level structural decision: in login_calculate the 32-byte work buffer is a plain copy of pass[0..31], the "
-             "word loop runs 8 times and every bit of every word is proven (XOR-set provenance through ntohl/htonl) to be the "
-             "password bit XOR the corresponding bit of the big-endian challenge, 32 bytes are hashed with a fresh MD5 state "
-             "into the caller's buffer; at the six login sites the digest compared with or sent to the peer is, on every path, the "
+        text="Clause-level structural decision: login_calculate is executed abstractly over XOR-affine bit vectors (every bit "
+             "is 0, 1, a source bit, an XOR of source bits, or unknown; counted loops over constants are run, nothing is "
+             "enumerated) and each of the 256 bits handed to MD5 is shown to be the password bit XOR the corresponding bit "
+             "of the big-endian challenge, for all passwords and challenges at once and however the function is written "
+             "(word-wise through ntohl/htonl or byte-wise; a sign extension shows up as a bit that is not a fixed XOR); "
+             "32 bytes are hashed with a fresh MD5 state into the caller's buffer; at the six login sites the digest compared with or sent to the peer is, on every path, the "
              "output of login_calculate(.., password, challenge+offset) computed in the same event with the documented offset (0, "
              "+1 towards the server, -1 back) for the same session; the digest sits at bytes 1..16 of the login message on both "
              "ends; all 64 MD5 steps (register order, round-function truth table, message word, rotation, additive constant "
              "recomputed from sin), the initial state and the padding byte equal RFC 1321. Not decided: digest equality for all "
              "inputs (the MD5 block loop, padding and length encoding are not proven).",
-        technique="bit-level XOR-set provenance, must-fact dataflow for call-result facts, table agreement against RFC 1321 "
-                  "recomputed in the checker",
+        technique="abstract execution over XOR-affine bit vectors (bit-level provenance), must-fact dataflow for call-result "
+                  "facts, table agreement against RFC 1321 recomputed in the checker",
         design="5 C19"),
     "C20": dict(
         text="Clause-level structural decision: forward_query records id, source address and address length of the query before "
